@@ -46,13 +46,24 @@ class LP:
                     ii.append(i); jj.append(j); vv.append(v)
             A = sp.csr_matrix((vv, (ii, jj)), shape=(len(self.rows), n))
             cons = [LinearConstraint(A, np.asarray(self.lo, float), np.asarray(self.hi, float))]
-        r = milp(np.asarray(self.c, float), constraints=cons, integrality=np.asarray(self.integ), bounds=Bounds(np.asarray(self.lb, float), np.asarray(self.ub, float)),
-                 options={'presolve': True})
-        if r.status == 0:
-            return 'optimal', float(-r.fun), np.asarray(r.x)
-        if r.status == 2:
-            return 'infeasible', None, None
-        return 'other:%s' % r.status, None, None
+        best = None
+        # HiGHS' MIP presolve (as bundled with scipy 1.14) was seen to return a wrong "optimal" point on a 22-variable order book
+        # problem; problems with integer variables are therefore solved with and without presolve and the better point is kept
+        variants = [{'presolve': True}] if not any(self.integ) else [{'presolve': False}, {'presolve': True}]
+        status = None
+        for opt in variants:
+            r = milp(np.asarray(self.c, float), constraints=cons, integrality=np.asarray(self.integ),
+                     bounds=Bounds(np.asarray(self.lb, float), np.asarray(self.ub, float)), options=opt)
+            if r.status == 0:
+                if best is None or -r.fun > best[0]:
+                    best = (float(-r.fun), np.asarray(r.x))
+            elif r.status == 2 and status is None:
+                status = 'infeasible'
+            elif status is None:
+                status = 'other:%s' % r.status
+        if best is not None:
+            return 'optimal', best[0], best[1]
+        return status, None, None
 
 
 def pvec(p, spec, tp, default=None):
@@ -69,12 +80,7 @@ def pvec(p, spec, tp, default=None):
     if isinstance(p, dict) and 'array' in p:
         return np.asarray(p['array'], float)
     st = [M.inst(t, tz) for t in p['start']]
-    if 'end' in p:
-        en = [M.inst(t, tz) for t in p['end']]
-    elif len(st) == 1:
-        en = [None]
-    else:
-        en = st[1:] + [st[-1] + 2 * (st[-1] - st[-2])]
+    en = M.implicit_ends(p, tz)
     out = np.full(T, np.nan if default is None else default)
     for k, q in enumerate(tp):
         hit = [v for a, b, v in zip(st, en, p['values']) if a <= q and (b is None or q < b)]
@@ -333,8 +339,9 @@ def flow_values(flows, x, T):
 
 
 def check_dispatch(spec, disp, tol=1e-6):
-    """is a dispatch table {(asset, node): values per step} feasible for the reference model?  Fix the flows and ask the
-    reference LP for a feasible completion (internal split into p/q, charge/discharge, order fractions)."""
+    """is a dispatch table {(asset, node): values per step} feasible for the reference model, and what is it worth there?
+    The flows are fixed and the reference objective is maximised over the remaining freedom (internal split into p/q,
+    charge/discharge, order fractions).  Returns (status, value)."""
     lp, flows = build(spec)
     scale = 1.0 + max([abs(v) for vals in disp.values() for v in vals if v is not None] + [0.0])
     for key, cells in flows.items():
@@ -345,6 +352,5 @@ def check_dispatch(spec, disp, tol=1e-6):
             if cell:
                 v = vals[t] or 0.0
                 lp.row(cell, v - tol * scale, v + tol * scale)
-    lp.c = [0.0] * len(lp.c)
-    st, _, _ = lp.solve()
-    return st
+    st, val, _ = lp.solve()
+    return st, val
